@@ -17,6 +17,9 @@ package main
 //   go.msg.norm_eq <A> <B>     two ext-in messages that differ only in ignored parts: Hash(true) equal
 //   go.msg.norm_ne <A> <B>     two ext-in messages that differ in destination or body: Hash(true) different
 //   go.msg.canon <table>       Hash(true) == hash of tlb.Marshal of the canonical message (schema encoder)
+//   go.tx.seq / go.msg.seq     ONE Transaction / Message variable reused for several decodes with SourceBoc()/Hash()/
+//                              Hash(true) interleaved: every observation is the one of the LAST decoded source
+//                              (tx.seq / msg.seq: the same scripts compared with the model)
 //   go.tx.hash <table>         Transaction.Hash() == Cell.Hash, with/without hasher; DeserializeBoc(SourceBoc()) is one cell
 //                              with the same hash and the same canonical dump
 
@@ -41,6 +44,10 @@ func init() {
 		"tx.hash":              func(a []string) string { return exTxHash(a, false) },
 		"tx.hash.hasher":       func(a []string) string { return exTxHash(a, true) },
 		"go.msg.shared_hasher": goMsgSharedHasher,
+		"tx.seq":               func(a []string) string { return runTxSeq(a, false) },
+		"go.tx.seq":            func(a []string) string { return runTxSeq(a, true) },
+		"msg.seq":              func(a []string) string { return runMsgSeq(a, false) },
+		"go.msg.seq":           func(a []string) string { return runMsgSeq(a, true) },
 		"go.msg.hash":          goMsgHash,
 		"go.msg.norm_eq":       func(a []string) string { return goMsgNormPair(a, true) },
 		"go.msg.norm_ne":       func(a []string) string { return goMsgNormPair(a, false) },
@@ -248,6 +255,162 @@ func goMsgSharedHasher(a []string) string {
 		}
 	}
 	return "ok"
+}
+
+// seqDecoder: how the decodes of one script get their decoder: 0 plain tlb.Unmarshal, 1 ONE hasher-carrying decoder
+// for the whole script, 2 a fresh hasher-carrying decoder per decode
+type seqDecoder struct {
+	mode   string
+	shared *tlb.Decoder
+}
+
+func (d *seqDecoder) unmarshal(c *boc.Cell, o any) error {
+	switch d.mode {
+	case "1":
+		if d.shared == nil {
+			d.shared = tlb.NewDecoder()
+		}
+		return d.shared.Unmarshal(c, o)
+	case "2":
+		return tlb.NewDecoder().Unmarshal(c, o)
+	}
+	return tlb.Unmarshal(c, o)
+}
+
+// runTxSeq: ONE tlb.Transaction variable through a script of operations
+//
+//	<mode> <script> <table0> <table1> …      script = steps joined by '.': dI decode table I into the variable,
+//	                                         s SourceBoc() parsed back, h Hash()
+//
+// spec form (tx.seq): "ok" + the hash observed at every s / h step; oracle form (go.tx.seq): after every step the
+// observation must be the one of the LAST decoded source cell.
+func runTxSeq(a []string, oracle bool) string {
+	dec := &seqDecoder{mode: a[0]}
+	tables := a[2:]
+	var tx tlb.Transaction
+	last := -1
+	out := "ok"
+	for k, st := range strings.Split(a[1], ".") {
+		switch st[0] {
+		case 'd':
+			i := int(st[1] - '0')
+			if err := dec.unmarshal(rootOf(tables[i]), &tx); err != nil {
+				if oracle {
+					return "ok"
+				}
+				return "err"
+			}
+			last = i
+		case 's', 'h':
+			if last < 0 {
+				continue
+			}
+			var got []byte
+			if st[0] == 'h' {
+				hs := tx.Hash()
+				got = hs[:]
+			} else {
+				b, err := tx.SourceBoc()
+				if err != nil {
+					return fmt.Sprintf("FAIL source-boc-error step=%d", k)
+				}
+				cells, err := boc.DeserializeBoc(b)
+				if err != nil || len(cells) != 1 {
+					return fmt.Sprintf("FAIL source-boc-parse step=%d", k)
+				}
+				got, err = cells[0].Hash()
+				if err != nil {
+					return fmt.Sprintf("FAIL source-boc-hash-error step=%d", k)
+				}
+				if oracle && h.Canon(cells) != h.Canon([]*boc.Cell{rootOf(tables[last])}) {
+					return fmt.Sprintf("FAIL source-boc-is-not-the-last-decoded-cell step=%d (%s) last=d%d", k, st, last)
+				}
+			}
+			if oracle {
+				want, err := rootOf(tables[last]).Hash()
+				if err == nil && !bytes.Equal(got, want) {
+					return fmt.Sprintf("FAIL stale-%s step=%d last=d%d got=%x want=%x", map[byte]string{'s': "source-boc", 'h': "hash"}[st[0]], k, last, got, want)
+				}
+			} else {
+				out += fmt.Sprintf(" %x", got)
+			}
+		}
+	}
+	return out
+}
+
+// runMsgSeq: the same for ONE tlb.Message variable: dI, h Hash(false), n Hash(true)
+func runMsgSeq(a []string, oracle bool) string {
+	dec := &seqDecoder{mode: a[0]}
+	tables := a[2:]
+	var m tlb.Message
+	last := -1
+	out := "ok"
+	for k, st := range strings.Split(a[1], ".") {
+		switch st[0] {
+		case 'd':
+			i := int(st[1] - '0')
+			if err := dec.unmarshal(rootOf(tables[i]), &m); err != nil {
+				if oracle {
+					return "ok"
+				}
+				return "err"
+			}
+			last = i
+		case 'h', 'n':
+			if last < 0 {
+				continue
+			}
+			got := m.Hash(st[0] == 'n')
+			if oracle {
+				var fresh tlb.Message
+				if err := tlb.Unmarshal(rootOf(tables[last]), &fresh); err != nil {
+					return "ok"
+				}
+				if want := fresh.Hash(st[0] == 'n'); got != want {
+					return fmt.Sprintf("FAIL stale-msg-hash step=%d (%s) last=d%d got=%x want=%x", k, st, last, got[:], want[:])
+				}
+			} else {
+				out += fmt.Sprintf(" %x", got[:])
+			}
+		}
+	}
+	return out
+}
+
+var seqScripts = []string{"d0.s.d1.s.h", "d0.s.h.d1.h.s", "d0.h.d1.s", "d0.d1.s.h", "d0.s.s.d1.s.d2.s.h.d0.s", "d0.h.s.d1.s.h.s.d2.h",
+	"d0.s.d0.s", "d0.s.d1.h.d2.s", "d1.s.h.d0.s.h", "d0.h.h.s.s.d2.h.s.d1.s.s.h"}
+
+func (c *c16Gen) randScript(alphabet string, ntab int) string {
+	n := 4 + c.g.Rng.Intn(8)
+	st := []string{fmt.Sprintf("d%d", c.g.Rng.Intn(ntab))}
+	for i := 1; i < n; i++ {
+		if c.g.Rng.Intn(3) == 0 {
+			st = append(st, fmt.Sprintf("d%d", c.g.Rng.Intn(ntab)))
+		} else {
+			st = append(st, string(alphabet[c.g.Rng.Intn(len(alphabet))]))
+		}
+	}
+	return strings.Join(st, ".")
+}
+
+// emitSeq: scripts over one reused variable, for the three decoder modes
+func (c *c16Gen) emitSeq(op string, alphabet string, tables []string, nscripts int) {
+	g := c.g
+	for k := 0; k < nscripts; k++ {
+		script := seqScripts[(k+g.Rng.Intn(3))%len(seqScripts)]
+		if alphabet != "sh" {
+			script = strings.NewReplacer("s", "n").Replace(script)
+		}
+		if k%2 == 1 {
+			script = c.randScript(alphabet, len(tables))
+		}
+		mode := fmt.Sprint(k % 3)
+		args := append([]string{mode, script}, tables...)
+		g.Count("seq_" + op)
+		g.Emit(op+".seq", args...)
+		g.Emit("go."+op+".seq", args...)
+	}
 }
 
 func normHash(table string) (tlb.Bits256, *tlb.Message, error) {
@@ -761,7 +924,15 @@ func genC16(g *h.G) {
 	c := &c16Gen{g: g}
 	n := g.Scale(2500, 40000)
 	var recent []string
+	var seqMsgs []string
 	emitOne := func(ts string) {
+		seqMsgs = append(seqMsgs, ts)
+		if len(seqMsgs) == 3 {
+			if g.Rng.Intn(g.Scale(12, 4)) == 0 {
+				c.emitSeq("msg", "hn", seqMsgs, 3)
+			}
+			seqMsgs = nil
+		}
 		g.Emit("msg.hash", ts)
 		g.Emit("msg.hash.hasher", ts)
 		g.Emit("go.msg.hash", ts)
@@ -952,6 +1123,7 @@ func (c *c16Gen) realBlocks() {
 		}
 		walk(roots[0])
 		name := filepath.Base(filepath.Dir(f))
+		var seqTx []string
 		for _, x := range txCells {
 			g.Count("real_tx_" + name)
 			ts := strings.Fields(h.Canon([]*boc.Cell{x}))[0]
@@ -959,6 +1131,13 @@ func (c *c16Gen) realBlocks() {
 			g.Emit("tx.hash.hasher", ts)
 			g.Emit("go.tx.hash", ts)
 			g.NonTrivial(ts)
+			seqTx = append(seqTx, ts)
+			if len(seqTx) == 3 {
+				if g.Rng.Intn(g.Scale(4, 1)) == 0 {
+					c.emitSeq("tx", "sh", seqTx, 6)
+				}
+				seqTx = nil
+			}
 			if pt := withPruned(g, h.ParseTable(ts)); pt != nil {
 				if pc := h.BuildCells(pt)[0]; safeTx(pc) != nil {
 					g.Count("real_tx_with_pruned_branch_" + name)
